@@ -1,6 +1,8 @@
 (* C04 cases: outcome class of Compile vs the model, and vs the expected membership when the harness knows it *)
 From Coq Require Import List ZArith Bool String.
 From JM Require Import Base.Outcome Base.Bytes Json.Value Model.Api Checks.Common.
+(* text-only cases (model = implementation) may accompany the cases of this checker *)
+From JM Require Export Checks.Basic.
 Import ListNotations.
 Open Scope Z_scope.
 
